@@ -55,8 +55,6 @@ pub struct World {
     pub subjects_created: u64,
     pub statements: u64,
     pub queries: u64,
-    pub t_record: std::time::Duration,
-    pub t_query: std::time::Duration,
 }
 
 /// What the harness knows about one recorded case.
@@ -123,8 +121,6 @@ impl World {
                 subjects_created: 0,
                 statements: 0,
                 queries: 0,
-                t_record: Default::default(),
-                t_query: Default::default(),
             };
             let mut cmd = String::from("MUTATE {\n");
             for i in 0..N_ACTORS {
@@ -252,7 +248,6 @@ impl World {
         self.batches += 1;
         let batch = format!("{}-b{}", self.tag, self.batches);
         let mut recs: Vec<Recorded> = vec![Recorded::default(); cases.len()];
-        let t0 = std::time::Instant::now();
         block_on(async {
             // transaction 0: the subjects and their v0 propositions
             let mut cmd = String::from("MUTATE {\n");
@@ -332,7 +327,6 @@ impl World {
                 }
             }
         });
-        self.t_record += t0.elapsed();
         (batch, recs)
     }
 
@@ -342,9 +336,7 @@ impl World {
         params: Map<String, Json>,
     ) -> Result<(Vec<Json>, Json), String> {
         self.queries += 1;
-        let t0 = std::time::Instant::now();
         let response = block_on(self.exec(command, params));
-        self.t_query += t0.elapsed();
         if response.status != TopLevelStatus::Succeeded {
             return Err(format!("{:?}", response.error));
         }
